@@ -249,12 +249,17 @@ func c17Pair(c *Ctx, cs any, desc, profile, data string, seedQ *rego.PreparedEva
 	if q != nil {
 		li = &info
 	}
+	if q != nil && profileMutated && info.FlattenOK && info.Nodes == 0 {
+		// "a document without nodes is a valid, conforming input" presupposes a working profile: a mutated profile that
+		// compiles may still fail at evaluation or report building (embedded Rego that redefines generated rules). The
+		// clause is applied only if the same compiled profile validates a one-node document without error.
+		if r := ValidateCompiled(q, `{"@id":"http://ex.org/probe","@type":"http://ex.org/T"}`); r.Err != nil || r.Panic != nil {
+			li = nil
+		}
+	}
 	if profileMutated || full {
 		// the text entry points recompile the profile
-		var liText *LDInfo
-		if q != nil {
-			liText = &info
-		}
+		liText := li
 		k.check("Validate", Validate(profile, data), true, profile, data, liText)
 		r4, _, _ := withChan(0, func(ch *chan events.Event) CallRes {
 			return ValidateConf(profile, data, Epoch2000, DefaultReportConf(), ch)
